@@ -93,28 +93,24 @@ PROPS = {
                    "erational against Int/Rat arithmetic; the model transcribes the current loops including their remaining defects, the "
                    "compiled headers are tied to it by grid + structured differential transcripts (operands of 1..60 limbs, "
                    "chains of 1..50 operations), every implementation output is judged against exact Int/Rat arithmetic",
-        level_note="PROVED for every limb width / every length / every sign unless stated: einteger + (C14_eint_add); - outside "
-                   "'negative lhs, non-negative rhs' (C14_eint_sub_partial + counterexample); * in full (C14_eint_mul: exact and "
-                   "no most-significant zero limb; the loop as repaired by bebe70a); << (C14_eint_shift), >> outside the "
-                   "block-move region (+ counterexample); comparisons of non-negative operands (+ counterexample); / % by a "
-                   "single-limb divisor on non-negative operands (C14_eint_divrem_partial; sign and Knuth-D counterexamples); "
-                   "decimal output and decimal parse (C14_eint_to_string, C14_eint_parse); operation histories (C14_history); "
-                   "uint64 wrap = arithmetic form for w<=32 (C14_eint_u64_steps). edecimal + - * / % as integers, comparisons, "
-                   "shifts (C14_edec_add/sub/mul/divrem/cmp/shift, C14_edec_divrem_identity, C14_edec_history, "
-                   "C14_edec_to_string; printed -0 of an exact negative remainder is the D17 counterexample, not repaired). "
-                   "erational + - * / exact, lowest terms, positive denominator, histories (C14_erat_ops/_lowest_terms/"
-                   "_positive_denominator/_history) and zero unique in full (C14_erat_zero_unique, _history; since 535b52e). "
-                   "NOT proved: nothing positive can be proved about the Knuth-D branch of einteger::reduce as it stands (it is "
-                   "wrong; modelled bit for bit on uint64 arithmetic, known finding). trusted: Lean kernel, hand-written model, "
-                   "g++ 12.2, x86 shift-count masking for the undefined `uint32_t >> 32` in reduce()",
+        level_note="PROVED for every limb width / every length / every sign: einteger + - * (C14_eint_add, C14_eint_sub, "
+                   "C14_eint_mul: exact, no most-significant zero limb), << and >> for every count (C14_eint_shift, "
+                   "C14_eint_shift_right), all six comparisons (C14_eint_cmp), / % by a single-limb divisor with the signs of "
+                   "truncating division and unsigned zero results (C14_eint_divrem_partial), decimal output and parse "
+                   "(C14_eint_to_string, C14_eint_parse), histories without any region restriction (C14_history), uint64 wrap = "
+                   "arithmetic form (C14_eint_u64_steps). edecimal + - * / % comparisons shifts negation, never a negative or "
+                   "padded zero (C14_edec_add/sub/mul/divrem/cmp/shift, C14_neg, C14_edec_history, C14_edec_to_string). "
+                   "erational + - * / exact, lowest terms, positive denominator, zero unique, histories (C14_erat_*). "
+                   "STATED, NOT PROVED: C14_eint_divrem_full for divisors of two or more limbs — the repaired Knuth-D branch of "
+                   "einteger::reduce is tied to exact arithmetic by the correspondence streams and the spec predicate only "
+                   "(every / and % line is judged against Int.tdiv/tmod; q-hat correction and add-back are exercised). "
+                   "trusted: Lean kernel, hand-written model, g++ 12.2 (arithmetic >> on negative int64_t)",
         explanation="elastic types: Lean model of einteger<u8|u16|u32> (+= -= *= reduce <<= >>= comparisons parse print), edecimal "
                     "(+ - * long division unpad) and erational (cross multiplication, Euclid normalize) vs. Int/Rat; "
-                    "correspondence by operand grids and structured random operands/histories; the remaining known defects (D16b, "
-                    "edecimal D17) are reproduced bit for bit by the model and reported as KNOWN-FINDING by input class; "
-                    "D16a (bebe70a) and erational D17 (535b52e) are repaired and modelled as repaired",
+                    "correspondence by operand grids and structured random operands/histories; all formerly known defects of the "
+                    "elastic types (D16, D17) are repaired upstream and modelled as repaired: no KNOWN-FINDING class is left",
         assumptions=["the compiled code behaves like the model on inputs that were not explored",
-                     "einteger<uint32_t> divisions whose quotient-digit loop exceeds the harness CPU limit are not explored"],
-        trusted=["x86-64 masks the shift count of `uint32_t >> 32` (undefined behaviour in einteger::reduce when the divisor is already normalised)"],
+                     "the harness still runs einteger<uint32_t> multi-limb divisions under a CPU limit (none is skipped any more)"],
     ),
     "C01": dict(
         harness=["h_posit"],
